@@ -294,7 +294,7 @@ class StructureMetaType(MetaType):
 
         if cls.__align__:
             # Align the stream
-            stream.seek(-stream.tell() & (cls.alignment - 1), io.SEEK_CUR)
+            stream.seek(-stream.tell() & ((cls.alignment or 1) - 1), io.SEEK_CUR)
 
         # Using type.__call__ directly calls the __init__ method of the class
         # This is faster than calling cls() and bypasses the metaclass __call__ method
